@@ -25,6 +25,7 @@ type replayEntry struct {
 	Match    string   `json:"match,omitempty"`    // substring the obligation name must contain
 	Package  string   `json:"package,omitempty"`  // Go package name (default: last dir element)
 	Race     bool     `json:"race,omitempty"`
+	NoInputs bool     `json:"noinputs,omitempty"` // the replay needs no counterexample values
 }
 
 func init() {
@@ -112,7 +113,7 @@ func templateReplay(r *Report, v *Verdict) *ReplayResult {
 	if ent == nil {
 		return nil
 	}
-	if len(v.Values) == 0 {
+	if len(v.Values) == 0 && !ent.NoInputs {
 		return &ReplayResult{Skipped: "the solver returned no values for the contract-level expressions"}
 	}
 	funcs := template.FuncMap{
